@@ -133,7 +133,7 @@ def run_workers(binp, sc, pid, tier, seed, runs, pos_budget, budget_s, nworkers,
 def merge(sums):
     tot = {"seeds": 0, "execs": 0, "positional_execs": 0, "steps": 0, "contended": 0, "sim_ns": 0, "probes": {}, "faults": {},
            "case_keys": set(), "il_hashes": set(), "samples": [], "found": {}, "infra": [], "determinism_reruns": 0,
-           "determinism_mismatches": 0, "leaked": 0, "stopped": [], "keys_capped": False, "pos_complete": 0, "wall_max": 0.0}
+           "determinism_mismatches": 0, "leaked": 0, "hung": 0, "hung_seeds": [], "stopped": [], "keys_capped": False, "pos_complete": 0, "wall_max": 0.0}
     for s in sums:
         tot["seeds"] += s["seeds"]; tot["execs"] += s["execs"]; tot["positional_execs"] += s["positional_execs"]
         tot["steps"] += s["steps"]; tot["contended"] += s["contended"]; tot["sim_ns"] += s["sim_ns"]
@@ -152,6 +152,7 @@ def merge(sums):
         tot["infra"] += s.get("infra") or []
         tot["determinism_reruns"] += s["determinism_reruns"]; tot["determinism_mismatches"] += s["determinism_mismatches"]
         tot["leaked"] += s.get("runs_with_leaked_goroutines", 0)
+        tot["hung"] += s.get("hung_runs", 0); tot["hung_seeds"] += (s.get("hung_seeds") or [])[:2]
         if s.get("stopped"): tot["stopped"].append(s["stopped"])
         tot["keys_capped"] |= bool(s.get("keys_capped"))
         tot["pos_complete"] += s.get("seeds_with_complete_position_enumeration", 0)
@@ -230,6 +231,7 @@ def cmd_check(pid, tier):
                 "determinism_reruns": tot["determinism_reruns"],
                 "determinism_mismatches": tot["determinism_mismatches"],
                 "runs_with_leaked_goroutines": tot["leaked"],
+                "hung_runs": tot["hung"], "hung_run_examples": tot["hung_seeds"][:5],
                 "components_real": cfg.get("real", []),
                 "components_stub": cfg.get("stub", []),
                 "known_findings_seen": known_lines,
@@ -247,6 +249,8 @@ def cmd_check(pid, tier):
         for pr in tc.get("require_probes", cfg.get("require_probes", [])):
             if tot["probes"].get(pr, 0) == 0 and tot["faults"].get(pr, 0) == 0:
                 infra.append("vacuity guard: probe '%s' never fired in this run" % pr)
+        if tot["hung"] * 50 > max(tot["execs"], 1):
+            infra.append("more than 2%% of the runs hung (%d of %d), e.g. %s: the harness refuses to answer" % (tot["hung"], tot["execs"], tot["hung_seeds"][:3]))
         if tot["execs"] == 0:
             infra.append("no executions")
         os.makedirs(os.path.join(VERIF, "evidence"), exist_ok=True)
@@ -271,6 +275,17 @@ def cmd_replay(pid, path):
         env = dict(ENV, VERIF_PROP=pid, VERIF_REPLAY=os.path.abspath(path), VERIF_FS=sc.fs, GOMAXPROCS="2", VERIF_REPLAY_TRACE=os.environ.get("VERIF_REPLAY_TRACE", ""))
         r = subprocess.run([binp, "-test.run", "^TestVerif$", "-test.count", "1"], env=env, cwd=sc.fs)
         return r.returncode if r.returncode in (0, 1) else 2
+    finally:
+        sc.cleanup()
+
+def cmd_one(pid, seed, params):
+    props = load_props()
+    sc = Scratch()
+    try:
+        binp = prepare(sc, props[pid]["pkg"])
+        env = dict(ENV, VERIF_PROP=pid, VERIF_ONE=str(seed), VERIF_PARAMS=params, VERIF_FS=sc.fs, GOMAXPROCS="2", VERIF_TIER=os.environ.get("VERIF_TIER", "quick"))
+        r = subprocess.run([binp, "-test.run", "^TestVerif$", "-test.count", "1"], env=env, cwd=sc.fs)
+        return 0
     finally:
         sc.cleanup()
 
@@ -330,6 +345,8 @@ def main():
         return cmd_replay(a[1], a[2])
     if a[0] == "selftest":
         return cmd_selftest(a[1], int(a[2]) if len(a) > 2 else 200)
+    if a[0] == "one":
+        return cmd_one(a[1], a[2], a[3] if len(a) > 3 else "")
     if a[0] == "build":
         return cmd_build()
     print(__doc__); return 2
